@@ -338,7 +338,11 @@ CLAIMED = {
         "from_Track); fromNote_decode + fromNotePinned_decode + pinned_position_sounds + fromNotePinned_fallback (C20Pinned.lean: "
         "whatever from_Note draws reads back as ONE fret on ONE string, that string sounds the note there and no string sounds it "
         "at a lower fret; a note carrying a valid (string, fret) position is drawn exactly there and the open string raised by the "
-        "fret is the note, an invalid position falls back to the search; any tuning, note, width); chord_sound + chord_span (C20Chord.lean: "
+        "fret is the note, an invalid position falls back to the search; any tuning, note, width); centre_shape / centre_length + "
+        "wrapWords_flatten / wrapWords_fit + addHeaders_head / addHeaders_tail (C20Header.lean: the page header pads with blanks "
+        "only, never cuts, splits the padding evenly and gives max(width, len) characters; the description's wrapping loop loses "
+        "no word, invents none, keeps their order, and every line of two or more words is shorter than width - 10 - any word "
+        "list and width; the header opens with an empty line and the title and closes with two empty lines); chord_sound + chord_span (C20Chord.lean: "
         "every fingering find_chord_fingering returns has one entry per string, every fretted entry lies within 0..maxfret and "
         "sounds a pitch class of the chord, every chord name is covered, at most max_fingers fingers, non-open frets less than "
         "max_distance apart - via follow_spec, makeTable_good, findNoteNames_spec); fromBar_decode + decodes_spec "
